@@ -14,7 +14,8 @@ RULE = ("(a) voxel solids of spec/Voxel3.tla at q = (pi/2) m for a catalogue of 
         "face diagonals, generic; |m| up to 7): TLC computes F as a Gaussian integer times 2^nz / (pi^nz prod m) and checks "
         "F(0) = V and conjugate symmetry in the spec; (b) lattice polygons of spec/Polygon2.tla at q = pi m (generic m) by the "
         "simplex formula over the growth triangulation, both orientations and both normals, with an extra q component along "
-        "the normal; (c) spheres with |q| R in (pi/2) Z along rational directions; (d) |q| size in {1e-3, 1e-2} against the "
+        "the normal; (c) spheres with |q| R in (pi/2) Z along rational directions and, from spec/Curved.tla, at |q| R in {1e-3 .. 1} by "
+        "the alternating series of (sin x - x cos x)/x^3; (d) |q| size in {1e-3, 1e-2} against the "
         "second-order Taylor value from the exact moments with a rigorous remainder bound; all under rational placements with "
         "the translation phase; plus F(-q) = conj F(q), density linearity, batch = single; distinct = (shape, placement)")
 
@@ -67,6 +68,19 @@ def run(ctx):
             ctx.traces += 1
             for sig, detail in fe.eval_sphere(case)[0]:
                 ctx.violation(sig, detail)
+    # spheres of spec/Curved.tla (radii, centres, scales of the parameter machine) at small and moderate rational |q| R
+    from .. import curved_eval
+    cres = curved_eval.emit(ctx, ctx.tier, classes=["Sphere"])
+    ctx.tlc(cres, "Curved emission (Sphere only) for the form-factor series")
+    seen = {}
+    for r in cres.records:
+        if r["cls"] == "Sphere":
+            seen.setdefault((str(r["axraw"]), str(r["env"])), r)
+    for r, (mism, _) in zip(list(seen.values()), pmap(fe.eval_sphere_series, list(seen.values()))):
+        ctx.case(("sphere_series", json.dumps(r["axraw"]), json.dumps(r["env"][-3:])))
+        ctx.traces += 1
+        for sig, detail in mism:
+            ctx.violation(sig, detail)
     ctx.exhaustive = False
     return ctx.finish(rule=RULE, assumptions=[
         "generic real q is covered only by the relations and the small-q enclosure; exact values exist on the quarter-/half-"
